@@ -62,11 +62,17 @@ def info(out):
 
 def run_task(task):
     import checks.C04 as me
+    if task["params"].get("mode") == "models":
+        from checks import c02_models
+        return c02_models.run_task(task)
     return histcheck.run_task(task, me)
 
 
 def replay(rec):
     import checks.C04 as me
+    if rec["params"].get("mode") == "models":
+        from checks import c02_models
+        return c02_models.replay(rec)
     return histcheck.replay(rec, me)
 
 
@@ -104,7 +110,22 @@ def tasks(tier, seed, selftest=False):
         # histories in which a stub's percolated Petri net is cached (from its parent's cached net) before it is expanded
         for sk in (("succ", "aseeds"), ("bfs", "aseeds"), ("succ", "minp"), ("bfs", "minp"), ("aseeds", "succ")):
             S.append(dict(family="D3", skeleton=sk, timebox=20))
-    return histcheck.mk_tasks(PROP, S, seed)
+    T = histcheck.mk_tasks(PROP, S, seed)
+    # published models: canned histories of plain expansion calls with limits and start nodes; afterwards every expanded
+    # node is decided by z3 to have exactly the maximal trap spaces inside it as motifs (checks/c02_models.py)
+    import glob
+    import os
+    q = tier == "quick"
+    mdir = os.path.join(os.environ.get("VERIF_REPO", "/repo"), "models/bbm-bnet-inputs-true")
+    paths = sorted(glob.glob(os.path.join(mdir, "*.bnet")), key=os.path.getsize)
+    small, mid = paths[:120], paths[120:180 if q else 210]
+    for i in range(0, len(small), 12):
+        T.append({"prop": PROP, "family": "-", "label": "models/small", "timebox": 15, "seed": seed,
+                  "params": {"mode": "models", "models": small[i:i + 12], "strats": ["h1", "h2", "h3"], "max_nodes": 6 if q else 10}})
+    for i in range(0, len(mid), 3):
+        T.append({"prop": PROP, "family": "-", "label": "models/medium-large", "timebox": 20 if q else 150, "seed": seed,
+                  "params": {"mode": "models", "models": mid[i:i + 3], "strats": ["h1"] if q else ["h1", "h2", "h3"], "max_nodes": 3 if q else 6}})
+    return T
 
 
 def main(tier, seed, t0, selftest=False):
@@ -112,5 +133,6 @@ def main(tier, seed, t0, selftest=False):
     return common.finish(PROP, tier, seed, "model_checking", results, t0, selftest=selftest, functions=FUNCTIONS,
                          bounds={"history": "quick: K=1 on U2 exhaustive, K=2 on U2 time-boxed 12 s per skeleton, K=1 on D3 time-boxed; thorough: K<=2 on U2 to exhaustion, K=3 on U2 / K=2 on D3 / K=1 on U3 time-boxed",
                                  "limits": f"-1(None)..{hist.MAXLIM}", "start nodes": f"None or any existing id <= {hist.MAXNODE}",
-                                 "outside": "n>3, K>3, limits > 7"},
+                                 "published models": "three canned histories (bfs(3) + minimal-space expansion from a stub + stack-limited dfs; size-limited attractor-seed expansion + level-limited bfs; two single-node expansions + size-limited block expansion without source shortcuts) on 120 small + 60 medium models (quick) / all 210 (thorough); afterwards every expanded node: motifs are trap spaces, maximal, percolate to the child, none missing (z3 over the validated Petri net / all states); no duplicate spaces; unexpanded nodes have no successors",
+                                 "outside": "n>3, K>3, limits > 7 for the symbolic families; on the models only the final state of each history is decided, and the comparison with a fresh full expansion is not made"},
                          assumptions=["contract stubs of DESIGN.md §8 validated on every representative"])
